@@ -144,8 +144,8 @@ func buildC11(tier string) *core.Plan {
 			c11Check(c, "refSelect/refHide-layered", ds)
 		}}
 	return &core.Plan{
-		Spaces: []core.Space{single, streams, layered},
-		Rule:   "every tree with <= N nodes over keys {a, b, $output} and scalars {1, true, false} (so every map/list carries no marker, a true marker, a false marker, a non-bool marker or a marker with extra keys), every 2-document stream of trees with <= 3 (thorough 4) nodes, and every lower/upper layer pair of trees with <= 3 (thorough 4) nodes (markers contributed, overridden or removed by the upper layer); non-trivial = the tree contains a $output key",
+		Spaces:      []core.Space{single, streams, layered},
+		Rule:        "every tree with <= N nodes over keys {a, b, $output} and scalars {1, true, false} (so every map/list carries no marker, a true marker, a false marker, a non-bool marker or a marker with extra keys), every 2-document stream of trees with <= 3 (thorough 4) nodes, and every lower/upper layer pair of trees with <= 3 (thorough 4) nodes (markers contributed, overridden or removed by the upper layer); non-trivial = the tree contains a $output key",
 		Assumptions: []string{"reference model ref.Outputs (select, hide, final) is the oracle; the relative order of a selected subtree and a selected descendant is compared as a multiset; a list carrying both markers is not judged"},
 		Bounds:      map[string]any{"nodes": n, "trees": trees.Len()},
 	}
